@@ -13,27 +13,796 @@ def pawnList (b : Board) : List Entry :=
   else if BB.count b.checkers == 1 then b.pawnLegals true (ownMask b)
   else []
 
+end Chess.Legal
+
+/-! Auxiliary lemmas live in their own namespace so that they cannot clash with the helper lemmas of
+the sibling files. -/
+namespace Chess.Legal.PawnAux
+open Chess Chess.Spec Chess.Rays Chess.RaysAux
+
+theorem abs_turn (b : Board) : (abs b).turn = b.turn := rfl
+
+theorem fileI_mk (f : File) (r : Rank) : fileI (Sq.mk f r) = (f.val : Int) := by
+  have := f.isLt; have := r.isLt
+  simp only [fileI, Sq.mk]; omega
+
+theorem rankI_mk (f : File) (r : Rank) : rankI (Sq.mk f r) = (r.val : Int) := by
+  have := f.isLt; have := r.isLt
+  simp only [rankI, Sq.mk]; omega
+
+theorem rank_eq_iff (s : Sq) (r : Rank) : s.rank = r ↔ rankI s = (r.val : Int) := by
+  unfold Sq.rank rankI; rw [Fin.ext_iff]; simp only []; omega
+
+theorem epCap_val (c : Color) : ((c.epCaptureRank).val : Int) = Position.epTargetRank c := by cases c <;> rfl
+theorem epPawn_val (c : Color) : ((c.epPawnRank).val : Int) = Position.epTargetRank c - fwd c := by cases c <;> rfl
+
+theorem sqAt_exists (a c : Sq) : ∃ v, Position.sqAt (fileI a) (rankI c) = some v := by
+  have := fileI_bounds a; have := rankI_bounds c
+  unfold Position.sqAt
+  rw [if_pos (by omega)]
+  have hlt : (rankI c).toNat * 8 + (fileI a).toNat < 64 := by omega
+  exact ⟨⟨_, hlt⟩, by simp [Sq.ofNat?, hlt]⟩
+
+theorem epSquare_mk : ∀ (f : File) (c : Color),
+    Position.sqAt (f.val : Int) (Position.epTargetRank c) = some (Sq.mk f c.epCaptureRank) := by
+  intro f c; cases c <;> revert f <;> decide
+
+theorem validateEnPassant_ok (b : Board) (h : b.WF = true) : b.validateEnPassant = .ok () := by
+  have hv := AbsL.wf_validate b h
+  unfold Board.validate at hv
+  split at hv
+  · cases hv
+  · split at hv
+    · cases hv
+    · split at hv
+      · cases hv
+      · assumption
+
+end Chess.Legal.PawnAux
+
+namespace Chess.Legal
+open Chess Chess.Spec Chess.Rays
+
 /-- the e.p. marker of a well-formed board: target square empty, enemy pawn in front of it -/
 theorem wf_ep (b : Board) (h : b.WF = true) (f : File) (hf : b.ep = some f) :
     (abs b).occupied (Sq.mk f b.turn.epCaptureRank) = false ∧
     (abs b).pieceAt (Sq.mk f b.turn.epPawnRank) = some (b.turn.flip, .pawn) ∧
-    (abs b).epSquare = some (Sq.mk f b.turn.epCaptureRank) := sorry
+    (abs b).epSquare = some (Sq.mk f b.turn.epCaptureRank) := by
+  have hp := AbsL.wf_partition b h
+  have hv := PawnAux.validateEnPassant_ok b h
+  unfold Board.validateEnPassant at hv
+  simp only [hf] at hv
+  rw [AbsL.get_eq b hp, AbsL.get_eq b hp] at hv
+  refine ⟨?_, ?_, ?_⟩
+  · split at hv
+    · cases hv
+    · rename_i h1
+      simpa [Position.occupied] using h1
+  · split at hv
+    · cases hv
+    · split at hv
+      · rename_i c' pc hg
+        split at hv
+        · cases hv
+        · split at hv
+          · cases hv
+          · rename_i h2 h3
+            rw [hg]
+            have : pc = .pawn := Classical.not_not.1 h3
+            subst this
+            have : c' = b.turn.flip := by
+              revert h2; cases c' <;> cases b.turn <;> simp [Color.flip]
+            rw [this]
+      · cases hv
+  · show (match b.ep with | some f => Position.sqAt f.val (Position.epTargetRank b.turn) | none => none) = _
+    rw [hf]
+    exact PawnAux.epSquare_mk f b.turn
 
+end Chess.Legal
+
+namespace Chess.Legal.PawnAux
+open Chess Chess.Spec Chess.Rays Chess.RaysAux
+
+/-! ### entry lists -/
+
+theorem inEntries_append (a c : List Entry) (m : Move) :
+    InEntries (a ++ c) m ↔ (InEntries a m ∨ InEntries c m) := by
+  unfold InEntries
+  constructor
+  · rintro ⟨e, he, h⟩
+    rcases List.mem_append.1 he with h' | h'
+    · exact Or.inl ⟨e, h', h⟩
+    · exact Or.inr ⟨e, h', h⟩
+  · rintro (⟨e, he, h⟩ | ⟨e, he, h⟩)
+    · exact ⟨e, List.mem_append.2 (Or.inl he), h⟩
+    · exact ⟨e, List.mem_append.2 (Or.inr he), h⟩
+
+theorem inEntries_nil (m : Move) : ¬ InEntries [] m := by
+  rintro ⟨e, he, _⟩
+  cases he
+
+theorem promo_all (pr : Promo) : pr ∈ MoveGen.promoPieces := by cases pr <;> decide
+
+theorem promo_cond (flag : Bool) (x : Option Promo) :
+    (if flag = true then ∃ p ∈ MoveGen.promoPieces, x = some p else x = none) ↔ x.isSome = flag := by
+  cases flag <;> cases x <;> simp [promo_all]
+
+theorem inEntries_push (srcs : List Sq) (f : Sq → BB) (promo : Sq → Bool) (m : Move) :
+    InEntries (Board.pushEntries srcs f promo) m ↔
+      (m.source ∈ srcs ∧ BB.mem (f m.source) m.dest = true ∧ m.piece.isSome = promo m.source) := by
+  unfold InEntries
+  constructor
+  · rintro ⟨e, he, h1, h2, h3⟩
+    obtain ⟨s, hs, _, rfl⟩ := (mem_pushEntries _ _ _ _).1 he
+    simp only at h1 h2 h3
+    rw [h1]
+    exact ⟨hs, h2, (promo_cond _ _).1 h3⟩
+  · rintro ⟨h1, h2, h3⟩
+    refine ⟨⟨m.source, f m.source, promo m.source⟩,
+      (mem_pushEntries _ _ _ _).2 ⟨m.source, h1, ?_, rfl⟩, rfl, h2, (promo_cond _ _).2 h3⟩
+    cases hn : BB.none (f m.source) with
+    | false => rfl
+    | true => rw [(BB.none_iff _).1 hn] at h2; cases h2
+
+/-- the promotion flag of the pawn entries -/
+def promoF (b : Board) : Sq → Bool :=
+  fun src => decide (src.rank = (match b.turn with | .white => (6 : Rank) | .black => 1))
+
+def unpinnedL (b : Board) (ic : Bool) (mask : BB) : List Entry :=
+  Board.pushEntries (BB.toList (b.raw.pawn &&& b.raw.color b.turn &&& ~~~b.pinned))
+    (fun src => Board.pseudoLegals .pawn src b.turn b.raw.all mask &&& b.checkMask ic (b.kingSq b.turn)) (promoF b)
+
+def pinnedL (b : Board) (ic : Bool) (mask : BB) : List Entry :=
+  if ic then [] else
+    Board.pushEntries (BB.toList (b.raw.pawn &&& b.raw.color b.turn &&& b.pinned))
+      (fun src => Board.pseudoLegals .pawn src b.turn b.raw.all mask &&& Lookup.line (b.kingSq b.turn) src) (promoF b)
+
+def epL (b : Board) (mask : BB) : List Entry :=
+  match b.ep with
+  | none => []
+  | some f =>
+    if BB.any (BB.ofSq (Sq.mk f b.turn.epCaptureRank) &&& mask) then
+      (BB.toList (BB.ofRank b.turn.epPawnRank &&& Lookup.adjacentFiles f &&& (b.raw.pawn &&& b.raw.color b.turn))).filterMap fun src =>
+        if b.isSafeAfterEnpassant (b.kingSq b.turn) (BB.ofSq src) (BB.ofSq (Sq.mk f b.turn.epCaptureRank))
+            (BB.ofSq (Sq.mk f b.turn.epPawnRank)) then
+          some ⟨src, BB.ofSq (Sq.mk f b.turn.epCaptureRank), false⟩ else none
+    else []
+
+theorem pawnLegals_eq (b : Board) (ic : Bool) (mask : BB) :
+    b.pawnLegals ic mask = unpinnedL b ic mask ++ pinnedL b ic mask ++ epL b mask := rfl
+
+theorem promoF_eq (b : Board) (s : Sq) : promoF b s = (rankI s == Position.seventhRank b.turn) := by
+  unfold promoF
+  rw [Bool.eq_iff_iff, decide_eq_true_eq, beq_iff_eq, rank_eq_iff]
+  cases b.turn <;> exact Iff.rfl
+
+theorem inEntries_ep (b : Board) (mask : BB) (f : File) (hf : b.ep = some f) (m : Move) :
+    InEntries (epL b mask) m ↔
+      (BB.any (BB.ofSq (Sq.mk f b.turn.epCaptureRank) &&& mask) = true ∧
+       BB.mem (BB.ofRank b.turn.epPawnRank &&& Lookup.adjacentFiles f &&& (b.raw.pawn &&& b.raw.color b.turn)) m.source = true ∧
+       b.isSafeAfterEnpassant (b.kingSq b.turn) (BB.ofSq m.source) (BB.ofSq (Sq.mk f b.turn.epCaptureRank))
+            (BB.ofSq (Sq.mk f b.turn.epPawnRank)) = true ∧
+       m.dest = Sq.mk f b.turn.epCaptureRank ∧ m.piece = none) := by
+  unfold epL InEntries
+  simp only [hf]
+  by_cases hany : BB.any (BB.ofSq (Sq.mk f b.turn.epCaptureRank) &&& mask) = true
+  · rw [if_pos hany]
+    constructor
+    · rintro ⟨e, he, h1, h2, h3⟩
+      rw [List.mem_filterMap] at he
+      obtain ⟨s, hs, hse⟩ := he
+      split at hse
+      · rename_i hsafe
+        injection hse with hse
+        subst hse
+        simp only at h1 h2 h3
+        rw [BB.mem_ofSq, beq_iff_eq] at h2
+        rw [BB.mem_toList] at hs
+        rw [h1]
+        exact ⟨hany, hs, hsafe, h2, by simpa using h3⟩
+      · cases hse
+    · rintro ⟨_, hs, hsafe, hd, hp⟩
+      refine ⟨⟨m.source, BB.ofSq (Sq.mk f b.turn.epCaptureRank), false⟩, ?_, rfl, ?_, ?_⟩
+      · rw [List.mem_filterMap]
+        exact ⟨m.source, (BB.mem_toList _ _).2 hs, by rw [if_pos hsafe]⟩
+      · simp only [BB.mem_ofSq, beq_iff_eq]; exact hd
+      · simpa using hp
+  · rw [if_neg hany]
+    constructor
+    · rintro ⟨e, he, _⟩; cases he
+    · rintro ⟨h, _⟩; exact absurd h hany
+
+theorem inEntries_ep_none (b : Board) (mask : BB) (hf : b.ep = none) (m : Move) :
+    ¬ InEntries (epL b mask) m := by
+  unfold epL
+  simp only [hf]
+  exact inEntries_nil m
+
+/-! ### normal pawn moves -/
+
+/-- the three kinds of non-e.p. pawn move, as in `legal_pawn_normal_iff` -/
+def NormalMove (p : Position) (c : Color) (s d : Sq) : Prop :=
+  (some d = step s 0 (fwd c) ∧ p.occupied d = false) ∨
+  (rankI s = Position.secondRank c ∧ some d = step s 0 (2 * fwd c) ∧
+    (match step s 0 (fwd c) with | some o => p.occupied o = false | none => False) ∧
+    p.occupied d = false) ∨
+  (pawnAtt c s d = true ∧ p.occupied d = true)
+
+theorem some_eq_step (s t : Sq) (df dr : Int) :
+    some t = step s df dr ↔ (fileI t = fileI s + df ∧ rankI t = rankI s + dr) := by
+  rw [eq_comm]; exact step_eq_some s t df dr
+
+theorem pushTbl_iff (c : Color) (s t : Sq) :
+    pawnPushTbl c s t = true ↔
+      (some t = step s 0 (fwd c) ∨ (rankI s = Position.secondRank c ∧ some t = step s 0 (2 * fwd c))) := by
+  rw [some_eq_step, some_eq_step]
+  cases c <;>
+    simp only [pawnPushTbl, dF, dR, fwd, Position.secondRank, Bool.and_eq_true, Bool.or_eq_true, beq_iff_eq] <;>
+    omega
+
+theorem quiet_iff (b : Board) (hp : b.raw.partitionOk = true) (c : Color) (s d : Sq) :
+    Props.C09.quietRes (Props.C09.front c s) (pawnPushTbl c s) b.raw.all d = true ↔
+      ((some d = step s 0 (fwd c) ∧ (abs b).occupied d = false) ∨
+       (rankI s = Position.secondRank c ∧ some d = step s 0 (2 * fwd c) ∧
+        (match step s 0 (fwd c) with | some o => (abs b).occupied o = false | none => False) ∧
+        (abs b).occupied d = false)) := by
+  have hpt := pushTbl_iff c s d
+  unfold Props.C09.quietRes Props.C09.front
+  cases hst : step s 0 (fwd c) with
+  | none =>
+    rw [hst] at hpt
+    simp
+  | some u =>
+    rw [hst] at hpt
+    simp only [Bool.and_eq_true, Bool.not_eq_true', ← AbsL.occupied_iff b hp, hpt]
+    constructor
+    · rintro ⟨⟨hu, h | ⟨hr, h2⟩⟩, hd⟩
+      · exact Or.inl ⟨h, hd⟩
+      · exact Or.inr ⟨hr, h2, hu, hd⟩
+    · rintro (⟨h, hd⟩ | ⟨hr, h2, hu, hd⟩)
+      · injection h with h
+        subst h
+        exact ⟨⟨hd, Or.inl rfl⟩, hd⟩
+      · exact ⟨⟨hu, Or.inr ⟨hr, h2⟩⟩, hd⟩
+
+theorem mem_pseudo_pawn_iff (b : Board) (hp : b.raw.partitionOk = true) (s d : Sq) (mask : BB) :
+    BB.mem (Board.pseudoLegals .pawn s b.turn b.raw.all mask) d = true ↔
+      (NormalMove (abs b) b.turn s d ∧ BB.mem mask d = true) := by
+  rw [AbsL.mem_pseudo_pawn, Bool.and_eq_true, Bool.or_eq_true, Bool.and_eq_true, ← AbsL.occupied_iff b hp,
+    quiet_iff b hp]
+  unfold NormalMove
+  constructor
+  · rintro ⟨(h | h) | h, hm⟩
+    · exact ⟨Or.inl h, hm⟩
+    · exact ⟨Or.inr (Or.inl h), hm⟩
+    · exact ⟨Or.inr (Or.inr h), hm⟩
+  · rintro ⟨h | h | h, hm⟩
+    · exact ⟨Or.inl (Or.inl h), hm⟩
+    · exact ⟨Or.inl (Or.inr h), hm⟩
+    · exact ⟨Or.inr h, hm⟩
+
+/-- a normal move is not of en-passant shape -/
+theorem normal_not_ep {p : Position} {c : Color} {s d : Sq} (hn : NormalMove p c s d) :
+    ¬ (pawnAtt c s d = true ∧ p.occupied d = false) := by
+  rintro ⟨ha, ho⟩
+  simp only [pawnAtt, absI, dF, dR, Bool.and_eq_true, beq_iff_eq] at ha
+  rcases hn with ⟨h, _⟩ | ⟨_, h, _⟩ | ⟨_, h⟩
+  · have := (some_eq_step _ _ _ _).1 h
+    have := ha.2
+    split at this <;> omega
+  · have := (some_eq_step _ _ _ _).1 h
+    have := ha.2
+    split at this <;> omega
+  · rw [ho] at h; cases h
+
+theorem destOk_normal (b : Board) (h : b.WF = true) (s d : Sq)
+    (hs : (abs b).pieceAt s = some (b.turn, .pawn)) (hn : NormalMove (abs b) b.turn s d) :
+    destOk (abs b) b.turn d = !((abs b).colorAt d == some b.turn) := by
+  have hpush : (abs b).occupied d = false → destOk (abs b) b.turn d = !((abs b).colorAt d == some b.turn) := by
+    intro ho
+    have := (occupied_false_iff _ _).1 ho
+    simp only [destOk, Position.colorAt, this]
+    rfl
+  rcases hn with ⟨_, ho⟩ | ⟨_, _, _, ho⟩ | ⟨ha, _⟩
+  · exact hpush ho
+  · exact hpush ho
+  · exact destOk_of_attacks b h s d .pawn hs ha
+
+/-- the hypothesis shape of `line_iff_pawn` -/
+theorem normal_line_shape {p : Position} {c : Color} {s d : Sq} (hn : NormalMove p c s d) :
+    (some d = step s 0 (fwd c) ∧ p.occupied d = false) ∨
+    (some d = step s 0 (2 * fwd c) ∧ p.occupied d = false ∧
+      (match step s 0 (fwd c) with | some o => p.occupied o = false | none => False)) ∨
+    (pawnAtt c s d = true ∧ p.occupied d = true) := by
+  rcases hn with h | ⟨_, h1, h2, h3⟩ | h
+  · exact Or.inl h
+  · exact Or.inr (Or.inl ⟨h1, h3, h2⟩)
+  · exact Or.inr (Or.inr h)
+
+/-! ### king safety after a normal pawn move -/
+
+/-- the king of the side to move is not attacked after moving `s → d` with `mv` arriving -/
+def SafeAfter (b : Board) (s d : Sq) (mv : Option (Color × Piece)) : Prop :=
+  ∀ q : Position, q.pieceAt = moveAt (abs b).pieceAt s d mv →
+    q.attacked (b.kingSq b.turn) b.turn.flip = false
+
+/-- a position with a given mailbox -/
+def posOf (mb : Sq → Option (Color × Piece)) : Position :=
+  { pieceAt := mb, turn := .white, rights := fun _ _ => false, ep := none, half := 0, full := 0 }
+
+theorem forall_pos_iff (mb : Sq → Option (Color × Piece)) (k : Sq) (c : Color) (P : Prop)
+    (h : ∀ q : Position, q.pieceAt = mb → (q.attacked k c = false ↔ P)) :
+    (∀ q : Position, q.pieceAt = mb → q.attacked k c = false) ↔ P := by
+  constructor
+  · intro hall
+    exact (h (posOf mb) rfl).1 (hall (posOf mb) rfl)
+  · intro hP q hq
+    exact (h q hq).2 hP
+
+theorem arriving_of_pawn (p : Position) (m : Move) (c : Color)
+    (hs : p.pieceAt m.source = some (c, .pawn)) : ∃ pc', arriving p m = some (c, pc') := by
+  unfold arriving
+  rw [hs]
+  cases m.piece <;> exact ⟨_, rfl⟩
+
+theorem dest_ne_king (b : Board) (h : b.WF = true) (d : Sq) (hd : (abs b).colorAt d ≠ some b.turn) :
+    d ≠ b.kingSq b.turn := by
+  rintro rfl
+  apply hd
+  simp only [Position.colorAt, king_piece b h, Option.map_some]
+
+theorem safe_iff_nocheck (b : Board) (h : b.WF = true) (s d : Sq) (pc' : Piece)
+    (hs : (abs b).pieceAt s = some (b.turn, .pawn)) (hd : (abs b).colorAt d ≠ some b.turn)
+    (hnc : BB.none b.checkers = true) (hn : NormalMove (abs b) b.turn s d) :
+    SafeAfter b s d (some (b.turn, pc')) ↔
+      (BB.mem b.pinned s = false ∨ BB.mem (Lookup.line (b.kingSq b.turn) s) d = true) := by
+  apply forall_pos_iff
+  intro q hq
+  have hpk : Piece.pawn ≠ Piece.king := by decide
+  cases hpin : BB.mem b.pinned s with
+  | false =>
+    have := safe_unpinned b h s d .pawn pc' hs hpk hd hnc hpin q hq
+    simp [this]
+  | true =>
+    obtain ⟨X, hX⟩ := (mem_pinned_iff_pins b h s (occupied_of_piece ⟨_, hs⟩)).1 hpin
+    have hXo : (abs b).occupied X = true := occupied_of_piece (sliderOn_facts _ _ _ _ hX.1).1
+    have hko : (abs b).occupied (b.kingSq b.turn) = true := occupied_of_piece ⟨_, king_piece b h⟩
+    rw [safe_no_check b h s d .pawn pc' hs hpk hd hnc q hq,
+      line_iff_pawn (abs b) b.turn (b.kingSq b.turn) X s d hX hko hXo (dest_ne_king b h d hd)
+        (normal_line_shape hn)]
+    constructor
+    · intro hall
+      exact Or.inr (hall X hX)
+    · rintro (h' | h') X' hX'
+      · cases h'
+      · rw [pinner_unique _ _ _ _ _ _ hX' hX]
+        exact h'
+
+theorem safe_iff_onecheck (b : Board) (h : b.WF = true) (s d C : Sq) (pc' : Piece)
+    (hs : (abs b).pieceAt s = some (b.turn, .pawn)) (hd : (abs b).colorAt d ≠ some b.turn)
+    (hC : BB.toList b.checkers = [C]) :
+    SafeAfter b s d (some (b.turn, pc')) ↔
+      (BB.mem b.pinned s = false ∧ BB.mem (b.checkMask true (b.kingSq b.turn)) d = true) := by
+  apply forall_pos_iff
+  intro q hq
+  have hpk : Piece.pawn ≠ Piece.king := by decide
+  rw [safe_one_check b h s d C .pawn pc' hs hpk hd hC q hq, mem_checkMask_one b C hC d,
+    Bool.or_eq_true, beq_iff_eq, List.contains_iff_mem]
+
+/-! ### the push/capture entries = the legal non-e.p. pawn moves -/
+
+theorem mem_pawns (b : Board) (hp : b.raw.partitionOk = true) (s : Sq) :
+    BB.mem (b.raw.pawn &&& b.raw.color b.turn) s = true ↔ (abs b).pieceAt s = some (b.turn, .pawn) := by
+  have := AbsL.mem_piece_color b hp s b.turn .pawn
+  rw [← decide_eq_true_eq (p := (abs b).pieceAt s = some (b.turn, .pawn)), ← this]
+  rfl
+
+theorem src_unpinned (b : Board) (hp : b.raw.partitionOk = true) (s : Sq) :
+    s ∈ BB.toList (b.raw.pawn &&& b.raw.color b.turn &&& ~~~b.pinned) ↔
+      ((abs b).pieceAt s = some (b.turn, .pawn) ∧ BB.mem b.pinned s = false) := by
+  rw [BB.mem_toList, BB.mem_and', Bool.and_eq_true, mem_pawns b hp, BB.mem_not', Bool.not_eq_true']
+
+theorem src_pinned (b : Board) (hp : b.raw.partitionOk = true) (s : Sq) :
+    s ∈ BB.toList (b.raw.pawn &&& b.raw.color b.turn &&& b.pinned) ↔
+      ((abs b).pieceAt s = some (b.turn, .pawn) ∧ BB.mem b.pinned s = true) := by
+  rw [BB.mem_toList, BB.mem_and', Bool.and_eq_true, mem_pawns b hp]
+
+theorem dest_iff (b : Board) (hp : b.raw.partitionOk = true) (s d : Sq) (extra : BB) :
+    BB.mem (Board.pseudoLegals .pawn s b.turn b.raw.all (ownMask b) &&& extra) d = true ↔
+      (NormalMove (abs b) b.turn s d ∧ (abs b).colorAt d ≠ some b.turn ∧ BB.mem extra d = true) := by
+  rw [BB.mem_and', Bool.and_eq_true, mem_pseudo_pawn_iff b hp, mem_ownMask b hp, Bool.not_eq_true',
+    beq_eq_false_iff_ne, and_assoc]
+
+/-- the two regimes in which `collect_moves` calls the pawn generator -/
+def Regime (b : Board) (ic : Bool) : Prop :=
+  (ic = false ∧ BB.none b.checkers = true) ∨ (ic = true ∧ ∃ C, BB.toList b.checkers = [C])
+
+theorem normal_entries_iff (b : Board) (h : b.WF = true) (ic : Bool) (hreg : Regime b ic) (m : Move) :
+    InEntries (unpinnedL b ic (ownMask b) ++ pinnedL b ic (ownMask b)) m ↔
+      ((abs b).pieceAt m.source = some (b.turn, .pawn) ∧ NormalMove (abs b) b.turn m.source m.dest ∧
+       (abs b).colorAt m.dest ≠ some b.turn ∧
+       m.piece.isSome = (rankI m.source == Position.seventhRank b.turn) ∧
+       SafeAfter b m.source m.dest (arriving (abs b) m)) := by
+  have hp := AbsL.wf_partition b h
+  rw [inEntries_append]
+  unfold unpinnedL pinnedL
+  rcases hreg with ⟨rfl, hnc⟩ | ⟨rfl, C, hC⟩
+  · rw [if_neg (by decide), inEntries_push, inEntries_push, src_unpinned b hp, src_pinned b hp,
+      dest_iff b hp, dest_iff b hp, promoF_eq, mem_checkMask_none]
+    constructor
+    · rintro (⟨⟨hs, hpin⟩, ⟨hn, hd, _⟩, hpr⟩ | ⟨⟨hs, hpin⟩, ⟨hn, hd, hl⟩, hpr⟩)
+      · obtain ⟨pc', hpc'⟩ := arriving_of_pawn (abs b) m b.turn hs
+        refine ⟨hs, hn, hd, hpr, ?_⟩
+        rw [hpc']
+        exact (safe_iff_nocheck b h _ _ pc' hs hd hnc hn).2 (Or.inl hpin)
+      · obtain ⟨pc', hpc'⟩ := arriving_of_pawn (abs b) m b.turn hs
+        refine ⟨hs, hn, hd, hpr, ?_⟩
+        rw [hpc']
+        exact (safe_iff_nocheck b h _ _ pc' hs hd hnc hn).2 (Or.inr hl)
+    · rintro ⟨hs, hn, hd, hpr, hsafe⟩
+      obtain ⟨pc', hpc'⟩ := arriving_of_pawn (abs b) m b.turn hs
+      rw [hpc'] at hsafe
+      cases hpin : BB.mem b.pinned m.source with
+      | false => exact Or.inl ⟨⟨hs, rfl⟩, ⟨hn, hd, rfl⟩, hpr⟩
+      | true =>
+        rcases (safe_iff_nocheck b h _ _ pc' hs hd hnc hn).1 hsafe with h' | h'
+        · rw [hpin] at h'; cases h'
+        · exact Or.inr ⟨⟨hs, rfl⟩, ⟨hn, hd, h'⟩, hpr⟩
+  · rw [if_pos rfl, inEntries_push, src_unpinned b hp, dest_iff b hp, promoF_eq]
+    constructor
+    · rintro (⟨⟨hs, hpin⟩, ⟨hn, hd, hcm⟩, hpr⟩ | h')
+      · obtain ⟨pc', hpc'⟩ := arriving_of_pawn (abs b) m b.turn hs
+        refine ⟨hs, hn, hd, hpr, ?_⟩
+        rw [hpc']
+        exact (safe_iff_onecheck b h _ _ C pc' hs hd hC).2 ⟨hpin, hcm⟩
+      · exact absurd h' (inEntries_nil m)
+    · rintro ⟨hs, hn, hd, hpr, hsafe⟩
+      obtain ⟨pc', hpc'⟩ := arriving_of_pawn (abs b) m b.turn hs
+      rw [hpc'] at hsafe
+      obtain ⟨hpin, hcm⟩ := (safe_iff_onecheck b h _ _ C pc' hs hd hC).1 hsafe
+      exact Or.inl ⟨⟨hs, hpin⟩, ⟨hn, hd, hcm⟩, hpr⟩
+
+theorem legal_normal_iff (b : Board) (h : b.WF = true) (m : Move)
+    (hs : (abs b).pieceAt m.source = some (b.turn, .pawn))
+    (hnotep : ¬ (pawnAtt b.turn m.source m.dest = true ∧ (abs b).occupied m.dest = false)) :
+    (abs b).legal m = true ↔
+      (NormalMove (abs b) b.turn m.source m.dest ∧ (abs b).colorAt m.dest ≠ some b.turn ∧
+       m.piece.isSome = (rankI m.source == Position.seventhRank b.turn) ∧
+       SafeAfter b m.source m.dest (arriving (abs b) m)) := by
+  have hp := AbsL.wf_partition b h
+  have hk := AbsL.wf_hasKings b h
+  have key : (abs b).legal m = true ↔
+      (destOk (abs b) b.turn m.dest = true ∧
+       (m.piece.isSome = (rankI m.source == Position.seventhRank b.turn)) ∧
+       NormalMove (abs b) b.turn m.source m.dest ∧
+       SafeAfter b m.source m.dest (arriving (abs b) m)) :=
+    legal_pawn_normal_iff (abs b) m (b.kingSq b.turn) hs (AbsL.kings_eq b hp hk b.turn) hnotep
+  rw [key]
+  constructor
+  · rintro ⟨hdo, hpr, hn, hsafe⟩
+    rw [destOk_normal b h _ _ hs hn, Bool.not_eq_true', beq_eq_false_iff_ne] at hdo
+    exact ⟨hn, hdo, hpr, hsafe⟩
+  · rintro ⟨hn, hd, hpr, hsafe⟩
+    refine ⟨?_, hpr, hn, hsafe⟩
+    rw [destOk_normal b h _ _ hs hn, Bool.not_eq_true', beq_eq_false_iff_ne]
+    exact hd
+
+/-! ### the en-passant entries = the legal en-passant captures -/
+
+theorem epSquare_none (b : Board) (hf : b.ep = none) : (abs b).epSquare = none := by
+  show (match b.ep with | some f => Position.sqAt f.val (Position.epTargetRank b.turn) | none => none) = none
+  rw [hf]
+
+theorem legal_ep_iff_b (b : Board) (h : b.WF = true) (m : Move) (v : Sq)
+    (hs : (abs b).pieceAt m.source = some (b.turn, .pawn))
+    (hatt : pawnAtt b.turn m.source m.dest = true) (hocc : (abs b).occupied m.dest = false)
+    (hv : Position.sqAt (fileI m.dest) (rankI m.source) = some v) :
+    (abs b).legal m = true ↔
+      (m.piece = none ∧ some m.dest = (abs b).epSquare ∧ (abs b).pieceAt v = some (b.turn.flip, .pawn) ∧
+       ∀ q : Position, q.pieceAt = moveAtEp (abs b).pieceAt m.source m.dest v (some (b.turn, .pawn)) →
+         q.attacked (b.kingSq b.turn) b.turn.flip = false) :=
+  legal_ep_iff (abs b) m (b.kingSq b.turn) v hs
+    (AbsL.kings_eq b (AbsL.wf_partition b h) (AbsL.wf_hasKings b h) b.turn) hatt hocc hv
+
+/-- the squares involved in an en-passant capture are pairwise distinct -/
+theorem ep_distinct (b : Board) (h : b.WF = true) (f : File) (hf : b.ep = some f) (s : Sq)
+    (hs : (abs b).pieceAt s = some (b.turn, .pawn)) :
+    b.kingSq b.turn ≠ s ∧ b.kingSq b.turn ≠ Sq.mk f b.turn.epCaptureRank ∧
+    b.kingSq b.turn ≠ Sq.mk f b.turn.epPawnRank ∧ s ≠ Sq.mk f b.turn.epCaptureRank ∧
+    Sq.mk f b.turn.epPawnRank ≠ Sq.mk f b.turn.epCaptureRank ∧ Sq.mk f b.turn.epPawnRank ≠ s := by
+  obtain ⟨hD, hV, _⟩ := wf_ep b h f hf
+  have hD' := (occupied_false_iff _ _).1 hD
+  have hk := king_piece b h
+  refine ⟨?_, ?_, ?_, ?_, ?_, ?_⟩ <;> intro e
+  · rw [e, hs] at hk; cases hk
+  · rw [e, hD'] at hk; cases hk
+  · rw [e, hV] at hk
+    injection hk with hk
+    injection hk with _ hk
+    cases hk
+  · rw [e, hD'] at hs; cases hs
+  · rw [e, hD'] at hV; cases hV
+  · rw [e, hs] at hV
+    injection hV with hV
+    injection hV with hV _
+    exact Color.flip_ne _ hV.symm
+
+theorem ep_safe_iff (b : Board) (h : b.WF = true) (f : File) (hf : b.ep = some f) (s : Sq)
+    (hs : (abs b).pieceAt s = some (b.turn, .pawn)) :
+    b.isSafeAfterEnpassant (b.kingSq b.turn) (BB.ofSq s) (BB.ofSq (Sq.mk f b.turn.epCaptureRank))
+        (BB.ofSq (Sq.mk f b.turn.epPawnRank)) = true ↔
+      ∀ q : Position, q.pieceAt = moveAtEp (abs b).pieceAt s (Sq.mk f b.turn.epCaptureRank)
+          (Sq.mk f b.turn.epPawnRank) (some (b.turn, .pawn)) →
+        q.attacked (b.kingSq b.turn) b.turn.flip = false := by
+  have hp := AbsL.wf_partition b h
+  obtain ⟨hD, hV, _⟩ := wf_ep b h f hf
+  obtain ⟨h1, h2, h3, h4, h5, h6⟩ := ep_distinct b h f hf s hs
+  have hcol : (abs b).colorAt s = some b.turn := by
+    simp only [Position.colorAt, hs, Option.map_some]
+  rw [isSafeAfterEnpassant_iff b hp _ s _ _ h1 h2 h3 h4 h5 h6 hcol hD hV]
+  symm
+  apply forall_pos_iff
+  intro q hq
+  rw [Bool.eq_false_iff, Ne, attacked_after_ep (abs b) s _ _ _ b.turn h1 h2 h3 h4 h5 h6 q hq]
+  apply not_congr
+  apply exists_congr
+  intro x
+  refine and_congr_right fun _ => and_congr_right fun _ => and_congr_right fun _ => or_congr ?_ Iff.rfl
+  unfold contactOn
+  rcases hx : (abs b).pieceAt x with _ | ⟨c', pc⟩
+  · exact Iff.rfl
+  · cases pc
+    case king => simp [contactOn_king_false b h x c' hx]
+    all_goals exact Iff.rfl
+
+/-- sources of the e.p. block: the squares from which a pawn attacks the marker square -/
+theorem ep_source_iff (c : Color) (f : File) (s : Sq) :
+    BB.mem (BB.ofRank c.epPawnRank &&& Lookup.adjacentFiles f) s = true ↔
+      pawnAtt c s (Sq.mk f c.epCaptureRank) = true := by
+  rw [BB.mem_and', BB.mem_ofRank, Props.C09.mem_adjacentFiles, Bool.and_eq_true, beq_iff_eq, beq_iff_eq,
+    rank_eq_iff, epPawn_val]
+  simp only [pawnAtt, dR, dF, fileI_mk, rankI_mk, epCap_val, Bool.and_eq_true, beq_iff_eq, absI]
+  cases c <;> simp only [fwd, Position.epTargetRank] <;> omega
+
+/-- the victim of an e.p. capture onto the marker square stands on `mk f epPawnRank` -/
+theorem ep_victim (c : Color) (f : File) (s v : Sq)
+    (hatt : pawnAtt c s (Sq.mk f c.epCaptureRank) = true)
+    (hv : Position.sqAt (fileI (Sq.mk f c.epCaptureRank)) (rankI s) = some v) :
+    v = Sq.mk f c.epPawnRank := by
+  obtain ⟨h1, h2⟩ := sqAt_eq_some _ _ _ hv
+  rw [sq_eq_iff, fileI_mk, rankI_mk, epPawn_val, h1, h2, fileI_mk]
+  simp only [pawnAtt, dR, rankI_mk, epCap_val, Bool.and_eq_true, beq_iff_eq] at hatt
+  omega
+
+theorem ep_entries_iff (b : Board) (h : b.WF = true) (m : Move) :
+    InEntries (epL b (ownMask b)) m ↔
+      ((abs b).pieceAt m.source = some (b.turn, .pawn) ∧ pawnAtt b.turn m.source m.dest = true ∧
+       (abs b).occupied m.dest = false ∧ (abs b).legal m = true) := by
+  have hp := AbsL.wf_partition b h
+  cases hf : b.ep with
+  | none =>
+    constructor
+    · intro h'; exact absurd h' (inEntries_ep_none b _ hf m)
+    · rintro ⟨hs, hatt, hocc, hleg⟩
+      obtain ⟨v, hv⟩ := sqAt_exists m.dest m.source
+      have := ((legal_ep_iff_b b h m v hs hatt hocc hv).1 hleg).2.1
+      rw [epSquare_none b hf] at this
+      cases this
+  | some f =>
+    obtain ⟨hD, hV, hE⟩ := wf_ep b h f hf
+    rw [inEntries_ep b _ f hf]
+    constructor
+    · rintro ⟨_, hsrc, hsafe, hd, hpn⟩
+      rw [BB.mem_and', Bool.and_eq_true, ep_source_iff, mem_pawns b hp] at hsrc
+      obtain ⟨hatt, hs⟩ := hsrc
+      obtain ⟨v, hv⟩ := sqAt_exists m.dest m.source
+      rw [← hd] at hatt hD
+      refine ⟨hs, hatt, hD, ?_⟩
+      rw [legal_ep_iff_b b h m v hs hatt hD hv]
+      rw [hd] at hatt hv ⊢
+      have := ep_victim b.turn f m.source v hatt hv
+      subst this
+      exact ⟨hpn, hE.symm, hV, (ep_safe_iff b h f hf m.source hs).1 hsafe⟩
+    · rintro ⟨hs, hatt, hocc, hleg⟩
+      obtain ⟨v, hv⟩ := sqAt_exists m.dest m.source
+      obtain ⟨hpn, hes, hvp, hsafe⟩ := (legal_ep_iff_b b h m v hs hatt hocc hv).1 hleg
+      rw [hE] at hes
+      injection hes with hd
+      rw [hd] at hatt hv hsafe
+      have := ep_victim b.turn f m.source v hatt hv
+      subst this
+      refine ⟨?_, ?_, (ep_safe_iff b h f hf m.source hs).2 hsafe, hd, hpn⟩
+      · rw [BB.any_iff]
+        refine ⟨Sq.mk f b.turn.epCaptureRank, ?_⟩
+        rw [BB.mem_and', BB.mem_ofSq, mem_ownMask b hp]
+        have := (occupied_false_iff _ _).1 hD
+        simp [Position.colorAt, this]
+      · rw [BB.mem_and', Bool.and_eq_true, ep_source_iff, mem_pawns b hp]
+        exact ⟨hatt, hs⟩
+
+/-! ### two or more checkers: an en-passant capture never helps -/
+
+/-- a checker other than the victim whose segment to the king does not contain `d` still attacks -/
+theorem checker_survives (p : Position) (c : Color) (k s d v C : Sq) (pc : Piece)
+    (hs : p.pieceAt s = some (c, pc)) (hd : p.occupied d = false)
+    (hC : isChecker p c.flip k C) (hCv : C ≠ v) (hdC : d ∉ betweenList k C) :
+    ∃ x : Sq, x ≠ d ∧ x ≠ s ∧ x ≠ v ∧
+      (contactOn p.pieceAt c.flip x k = true ∨
+       (sliderOn p.pieceAt c.flip x k = true ∧ d ∉ betweenList x k ∧
+        ∀ u ∈ betweenList x k, u ≠ s → u ≠ v → p.occupied u = false)) := by
+  have hCp := isChecker_piece hC
+  refine ⟨C, ?_, ne_of_colors hCp hs, hCv, ?_⟩
+  · rintro rfl
+    rw [occupied_of_piece hCp] at hd
+    cases hd
+  · rcases hC with hc | ⟨hsl, hcl⟩
+    · exact Or.inl hc
+    · refine Or.inr ⟨hsl, fun e => hdC ((mem_between_comm _ _ _).1 e), fun u hu _ _ => ?_⟩
+      exact clear_forall hcl u ((mem_between_comm _ _ _).1 hu)
+
+/-- two checkers whose segments to the king share a square coincide -/
+theorem two_blocked (p : Position) (c : Color) (k s d C1 C2 : Sq) (pc : Piece)
+    (hs : p.pieceAt s = some (c, pc))
+    (h1 : isChecker p c.flip k C1) (h2 : isChecker p c.flip k C2)
+    (d1 : d ∈ betweenList k C1) (d2 : d ∈ betweenList k C2) : C1 = C2 := by
+  have hp1 := isChecker_piece h1
+  have hp2 := isChecker_piece h2
+  have key : ∀ C, isChecker p c.flip k C → d ∈ betweenList k C →
+      aligned k C = true ∧ ∀ v ∈ betweenList k C, p.occupied v = true → v = s := by
+    intro C hC dC
+    rcases hC with hc | ⟨a, bcl⟩
+    · have := (contactOn_facts _ _ _ _ hc).2.1
+      rw [mem_between_comm, this] at dC
+      cases dC
+    · refine ⟨?_, fun v hv ho => ?_⟩
+      · rw [aligned_symm]; exact (sliderOn_facts _ _ _ _ a).2
+      · have := clear_forall bcl v hv
+        rw [this] at ho; cases ho
+  obtain ⟨a1, f1⟩ := key C1 h1 d1
+  obtain ⟨a2, f2⟩ := key C2 h2 d2
+  exact seg_share p.occupied k C1 C2 s d a1 a2 (occupied_of_piece hp1) (occupied_of_piece hp2)
+    (ne_of_colors hp1 hs) (ne_of_colors hp2 hs) f1 f2 (Or.inr d1) (Or.inr d2)
+
+/-- the marker square is a knight's move away from a king checked by the e.p. victim -/
+theorem ep_knight (c : Color) (f : File) (k : Sq)
+    (h : pawnAtt c.flip (Sq.mk f c.epPawnRank) k = true) :
+    knightAtt k (Sq.mk f c.epCaptureRank) = true := by
+  simp only [pawnAtt, knightAtt, dF, dR, fileI_mk, rankI_mk, epCap_val, epPawn_val, Bool.and_eq_true,
+    Bool.or_eq_true, beq_iff_eq, absI] at h ⊢
+  cases c <;> simp only [Color.flip, fwd, Position.epTargetRank] at h ⊢ <;> omega
+
+/-- if the victim gives check, the marker square is on no segment from the king -/
+theorem victim_case (b : Board) (h : b.WF = true) (f : File) (hf : b.ep = some f) (C : Sq)
+    (hV0 : isChecker (abs b) b.turn.flip (b.kingSq b.turn) (Sq.mk f b.turn.epPawnRank))
+    (hdC : Sq.mk f b.turn.epCaptureRank ∈ betweenList (b.kingSq b.turn) C) : False := by
+  obtain ⟨_, hV, _⟩ := wf_ep b h f hf
+  have hal := (dir_of_mem_segment _ _ _ (Or.inl hdC)).1
+  rcases hV0 with hc | ⟨hsl, _⟩
+  · unfold contactOn at hc
+    rw [hV] at hc
+    simp only [Bool.and_eq_true, beq_self_eq_true, true_and] at hc
+    rw [knight_not_aligned _ _ (ep_knight b.turn f _ hc)] at hal
+    cases hal
+  · unfold sliderOn at hsl
+    rw [hV] at hsl
+    cases hsl
+
+end Chess.Legal.PawnAux
+
+namespace Chess.Legal
+open Chess Chess.Spec Chess.Rays
+
+set_option linter.unusedVariables false in
 /-- with two or more checkers an en-passant capture never rescues the king -/
 theorem ep_unsafe_two_checks (b : Board) (h : b.WF = true) (f : File) (hf : b.ep = some f) (s : Sq)
     (hs : (abs b).pieceAt s = some (b.turn, .pawn))
     (hatt : pawnAtt b.turn s (Sq.mk f b.turn.epCaptureRank) = true)
     (h2 : 2 ≤ BB.count b.checkers) (q : Position)
     (hq : q.pieceAt = moveAtEp (abs b).pieceAt s (Sq.mk f b.turn.epCaptureRank) (Sq.mk f b.turn.epPawnRank) (some (b.turn, .pawn))) :
-    q.attacked (b.kingSq b.turn) b.turn.flip = true := sorry
+    q.attacked (b.kingSq b.turn) b.turn.flip = true := by
+  obtain ⟨hD, hV, _⟩ := wf_ep b h f hf
+  obtain ⟨e1, e2, e3, e4, e5, e6⟩ := PawnAux.ep_distinct b h f hf s hs
+  rw [attacked_after_ep (abs b) s _ _ _ b.turn e1 e2 e3 e4 e5 e6 q hq]
+  obtain ⟨C1, C2, hne, m1, m2⟩ := two_members b.checkers h2
+  have c1 := (mem_checkers_iff_isChecker b h C1).1 m1
+  have c2 := (mem_checkers_iff_isChecker b h C2).1 m2
+  by_cases v1 : C1 = Sq.mk f b.turn.epPawnRank
+  · have v2 : C2 ≠ Sq.mk f b.turn.epPawnRank := fun e => hne (v1.trans e.symm)
+    by_cases d2 : Sq.mk f b.turn.epCaptureRank ∈ betweenList (b.kingSq b.turn) C2
+    · exact (PawnAux.victim_case b h f hf C2 (v1 ▸ c1) d2).elim
+    · exact PawnAux.checker_survives (abs b) b.turn _ s _ _ C2 .pawn hs hD c2 v2 d2
+  · by_cases d1 : Sq.mk f b.turn.epCaptureRank ∈ betweenList (b.kingSq b.turn) C1
+    · by_cases v2 : C2 = Sq.mk f b.turn.epPawnRank
+      · exact (PawnAux.victim_case b h f hf C1 (v2 ▸ c2) d1).elim
+      · by_cases d2 : Sq.mk f b.turn.epCaptureRank ∈ betweenList (b.kingSq b.turn) C2
+        · exact absurd (PawnAux.two_blocked (abs b) b.turn _ s _ C1 C2 .pawn hs c1 c2 d1 d2) hne
+        · exact PawnAux.checker_survives (abs b) b.turn _ s _ _ C2 .pawn hs hD c2 v2 d2
+    · exact PawnAux.checker_survives (abs b) b.turn _ s _ _ C1 .pawn hs hD c1 v1 d1
+
+
+/-- the pawn entries in either regime of `collect_moves` -/
+theorem pawnLegals_iff (b : Board) (h : b.WF = true) (ic : Bool) (hreg : PawnAux.Regime b ic) (m : Move) :
+    InEntries (b.pawnLegals ic (ownMask b)) m ↔
+      ((abs b).pieceAt m.source = some (b.turn, .pawn) ∧ (abs b).legal m = true) := by
+  rw [PawnAux.pawnLegals_eq, PawnAux.inEntries_append, PawnAux.normal_entries_iff b h ic hreg,
+    PawnAux.ep_entries_iff b h]
+  constructor
+  · rintro (⟨hs, hn, hd, hpr, hsafe⟩ | ⟨hs, _, _, hleg⟩)
+    · exact ⟨hs, (PawnAux.legal_normal_iff b h m hs (PawnAux.normal_not_ep hn)).2 ⟨hn, hd, hpr, hsafe⟩⟩
+    · exact ⟨hs, hleg⟩
+  · rintro ⟨hs, hleg⟩
+    by_cases hep : pawnAtt b.turn m.source m.dest = true ∧ (abs b).occupied m.dest = false
+    · exact Or.inr ⟨hs, hep.1, hep.2, hleg⟩
+    · exact Or.inl ⟨hs, (PawnAux.legal_normal_iff b h m hs hep).1 hleg⟩
+
+/-- with two or more checkers no pawn move is legal -/
+theorem pawn_none_two_checks_aux (b : Board) (h : b.WF = true) (h2 : 2 ≤ BB.count b.checkers) (m : Move)
+    (hs : (abs b).pieceAt m.source = some (b.turn, .pawn)) : (abs b).legal m = false := by
+  rw [Bool.eq_false_iff]
+  intro hleg
+  by_cases hep : pawnAtt b.turn m.source m.dest = true ∧ (abs b).occupied m.dest = false
+  · obtain ⟨v, hv⟩ := PawnAux.sqAt_exists m.dest m.source
+    obtain ⟨_, hes, _, hsafe⟩ := (PawnAux.legal_ep_iff_b b h m v hs hep.1 hep.2 hv).1 hleg
+    cases hf : b.ep with
+    | none =>
+      rw [PawnAux.epSquare_none b hf] at hes
+      cases hes
+    | some f =>
+      obtain ⟨_, _, hE⟩ := wf_ep b h f hf
+      rw [hE] at hes
+      injection hes with hd
+      obtain ⟨hatt, _⟩ := hep
+      rw [hd] at hatt hv hsafe
+      have := PawnAux.ep_victim b.turn f m.source v hatt hv
+      subst this
+      have := ep_unsafe_two_checks b h f hf m.source hs hatt h2 (PawnAux.posOf _) rfl
+      rw [hsafe (PawnAux.posOf _) rfl] at this
+      cases this
+  · obtain ⟨_, hd, _, hsafe⟩ := (PawnAux.legal_normal_iff b h m hs hep).1 hleg
+    obtain ⟨pc', hpc'⟩ := PawnAux.arriving_of_pawn (abs b) m b.turn hs
+    rw [hpc'] at hsafe
+    have := unsafe_two_checks b h m.source m.dest .pawn pc' hs (by decide) hd h2 (PawnAux.posOf _) rfl
+    rw [hsafe (PawnAux.posOf _) rfl] at this
+    cases this
 
 /-- **pawns**: generated = legal (pushes, double pushes, captures, all four promotion choices exactly
 when leaving the seventh rank, en passant) -/
 theorem pawn_iff (b : Board) (h : b.WF = true) (m : Move) :
-    InEntries (pawnList b) m ↔ ((abs b).pieceAt m.source = some (b.turn, .pawn) ∧ (abs b).legal m = true) := sorry
+    InEntries (pawnList b) m ↔ ((abs b).pieceAt m.source = some (b.turn, .pawn) ∧ (abs b).legal m = true) := by
+  unfold pawnList
+  by_cases hnc : BB.none b.checkers = true
+  · rw [if_pos hnc]
+    exact pawnLegals_iff b h false (Or.inl ⟨rfl, hnc⟩) m
+  · rw [if_neg hnc]
+    by_cases h1 : (BB.count b.checkers == 1) = true
+    · rw [if_pos h1]
+      rw [beq_iff_eq, BB.count_eq_length_toList, List.length_eq_one_iff] at h1
+      exact pawnLegals_iff b h true (Or.inr ⟨rfl, h1⟩) m
+    · rw [if_neg h1]
+      have h2 : 2 ≤ BB.count b.checkers := by
+        rw [beq_iff_eq] at h1
+        have h0 : BB.count b.checkers ≠ 0 := by
+          intro h0
+          apply hnc
+          rw [BB.none_iff]
+          intro s
+          cases hm : BB.mem b.checkers s with
+          | false => rfl
+          | true =>
+            rw [BB.count_eq_length_toList, List.length_eq_zero_iff] at h0
+            have := (BB.mem_toList _ _).2 hm
+            rw [h0] at this
+            cases this
+        omega
+      constructor
+      · intro h'; exact absurd h' (PawnAux.inEntries_nil m)
+      · rintro ⟨hs, hleg⟩
+        rw [pawn_none_two_checks_aux b h h2 m hs] at hleg
+        cases hleg
 
 /-- with two or more checkers no pawn move is legal (so generating none is right) -/
 theorem pawn_none_two_checks (b : Board) (h : b.WF = true) (h2 : 2 ≤ BB.count b.checkers) (m : Move)
-    (hs : (abs b).pieceAt m.source = some (b.turn, .pawn)) : (abs b).legal m = false := sorry
+    (hs : (abs b).pieceAt m.source = some (b.turn, .pawn)) : (abs b).legal m = false :=
+  pawn_none_two_checks_aux b h h2 m hs
 
 end Chess.Legal
